@@ -1082,7 +1082,9 @@ def fam_units(P, n, tier):
                     es.append(Res(RC['DATA_NEXT'], payload(0, min(12, usz - 8), '{', '}', 'nopqrstuvwxyz')))
                 es.append(Res(P.choice([RC['DATA_OK'], RC['DATA_OK'], RC['DATA_OK'], RC['OK']]), payload(0, min(12, usz - 8), '{', '}', 'nopqrstuvwxyz')))
             sc.script(1, e.ci, 0, es)
-            sc.script(3, e.ci, 0, [Res(RC['DATA_OK'], payload(0, min(12, usz - 8), '{', '}', 'nopqrstuvwxyz')) for _ in range(20)])
+            # now and then an event's test handler answers PRINT_CMD_LIST_OK: for an event that finishes the
+            # event silently (D2) and must leave the command machine's unit in flight alone
+            sc.script(3, e.ci, 0, [(Res(RC['LIST']) if (i % 4 == 2 and P.chance(0.3)) else Res(RC['DATA_OK'], payload(0, min(12, usz - 8), '{', '}', 'nopqrstuvwxyz'))) for _ in range(20)])
         sc.rd = P.bits(6000, P.choice([0.5, 0.8, 1.0]))
         sc.wr = P.bits(6000, P.choice([0.3, 0.5, 0.7, 0.9]))
         for j in range(P.randint(6, 30 if tier == 'quick' else 60)):
